@@ -28,13 +28,33 @@ Definition iters_of (s : session) (m : mstate) : list (option Z) :=
 Definition counts_of (m : mstate) : Z * Z * Z := (m_mul m, m_add m, m_upd m).
 Definition V_counts (c : Z * Z * Z) : V := VL [VZ (fst (fst c)); VZ (snd (fst c)); VZ (snd c)].
 
+(* Fiber.maxCoord() of every fiber of a tensor, root first, depth first: the last stored
+   coordinate, None for an empty fiber (fiber.py maxCoord) *)
+Fixpoint maxcs (t : tree) : list (option Z) :=
+  match t with
+  | Leaf _ => []
+  | Node es => last (map (fun ct => Some (fst ct)) es) None
+               :: flat_map (fun ct => maxcs (snd ct)) es
+  end.
+
+(* the other read-backs a user can make of the output and of the operands after the kernel —
+   output: getShape() (estimated when none was declared), getActive() of every fiber,
+   uncompress(); each operand: stored tree, getShape(), maxCoord()s, getActive()s, uncompress().
+   The harness reports, per read-back, [] when the run with collection on answers exactly as the
+   run with collection off, else [1; off; on]. *)
+Definition n_readbacks : nat := 13.
+Definition V_same : V := VL (repeat (VL []) n_readbacks).
+
 (* observation layout:
    [ output with collection off; output with collection on;
      [payload_mul; payload_add; payload_update] of Metrics.dump() (absent = 0);
      [Compute.numOps(dump, "mul"/"add"/"update")];
-     [numIters per loop rank, None when (rank,"iter") is not traced] ] *)
+     [numIters per loop rank, None when (rank,"iter") is not traced];
+     maxCoord() of every output fiber, collection off; the same, collection on;
+     differences of the other read-backs between off and on ] *)
 Definition c15_obs (zoff zon : tree) (cn : Z * Z * Z) (its : list (option Z)) : V :=
-  VL [V_tree zoff; V_tree zon; V_counts cn; V_counts cn; Vl (Vo VZ) its].
+  VL [V_tree zoff; V_tree zon; V_counts cn; V_counts cn; Vl (Vo VZ) its;
+      Vl (Vo VZ) (maxcs zoff); Vl (Vo VZ) (maxcs zon); V_same].
 
 Definition after_prior (c : c15_case) : mstate :=
   fold_left (fun m s => snd (run_session m s)) (k_prior c) m_pristine.
@@ -172,8 +192,10 @@ Definition c15_holds (c : c15_case) (o : V) : bool :=
   let n := spec_leafs (s_da s) (s_db s) (s_lv s) (s_a s) (s_b s) in
   c15_wf c &&
   match o with
-  | VL [zoff; zon; VL [VZ mul; VZ add; VZ upd]; nops; its] =>
-      V_eqb zoff zon                                (* transparent *)
+  | VL [zoff; zon; VL [VZ mul; VZ add; VZ upd]; nops; its; mcoff; mcon; rb] =>
+      V_eqb zoff zon                                (* transparent: the stored output ... *)
+      && V_eqb mcoff mcon                           (* ... what maxCoord() answers ... *)
+      && V_eqb rb V_same                            (* ... and every other read-back, operands too *)
       && Z.eqb mul n                                (* one multiply per execution of the statement *)
       && Z.eqb upd n                                (* one update per execution, zero addends included *)
       && Z.eqb add (ref_adds (fun _ => 0)           (* adds = executions on a non-zero output value *)
